@@ -2,6 +2,8 @@
 //! case, the inputs and the implementation's canonicalised result; `modelrun` (the extracted Coq
 //! model) evaluates the same inputs and ./check diffs the two.  `primserver` serves the model's
 //! cryptographic primitive calls with the same RustCrypto crates the implementation links.
+mod aud_sstcp;
+mod aud_ssudp;
 mod canon;
 mod framed;
 mod old_ws;
